@@ -779,3 +779,25 @@ pub fn compare(got: Option<f64>, exp: &Exp, tout: OutT) -> Result<f64, String> {
         },
     }
 }
+
+// ---------------------------------------------------------------------------------------------
+// aggregations (the whole series is one window, no history)
+
+/// Expected value of an aggregation with `min_periods` = mp (not clamped to the length).
+pub fn expect_agg(stat: Stat, x: &Series, mp: usize) -> Exp {
+    let len = x.len();
+    let n = x.iter().filter(|v| v.is_some()).count();
+    if len == 0 || n < mp.max(stat.k()) {
+        return Exp::null();
+    }
+    expect_series(stat, x, len, Some(mp.min(len))).pop().unwrap()
+}
+
+pub fn expect_agg2(stat: Stat2, a: &Series, b: &Series, mp: usize) -> Exp {
+    let len = a.len();
+    let n = a.iter().zip(b.iter()).filter(|(p, q)| p.is_some() && q.is_some()).count();
+    if len == 0 || n < mp.max(stat.k()) {
+        return Exp::null();
+    }
+    expect_series2(stat, a, b, len, Some(mp.min(len))).pop().unwrap()
+}
